@@ -123,7 +123,29 @@ def jobs_for(tier):
                                latlon=False, temporal=True,
                                sills=ALL_SILL if thorough else [("none", 0), ("false", 0), ("val", 128)],
                                anis=["fit", "off", "fix"], bnds=[()])))
+    # spellings of the arguments (dtype / container) as an input class; well-posed selections only
+    xs_all, ys_all, ws_all = ["f64", "i64", "list", "f32"], ["f64", "list", "f32"], ["none", "arr", "list"]
+    sel_sp = dict(var=[0, 1], len=[0], nug=[0, 2], opt=[0])     # indices into the selection sets
+    def spells(xs):
+        full = [(x, y, w) for x in xs for y in ys_all for w in ws_all]
+        if thorough:
+            return full
+        # quick: every spelling of one argument with the others plain, plus a few mixtures
+        star = [(x, "f64", "none") for x in xs] + [("f64", y, "none") for y in ys_all] + \
+               [("f64", "f64", w) for w in ws_all] + [(xs[1], "list", "arr"), ("list", "f32", "list"),
+                                                      ("f32", "list", "arr"), (xs[1], "f32", "none")]
+        return [sp for sp in full if sp in star]
+
+    js.append(("Spell2", dict(cls="Plain", real="Exponential", dim=2, dirs=[False, True], latlon=False,
+                              sills=[("none", 0), ("val", 128)], anis=["fit", "off"], bnds=[()], sel_idx=sel_sp,
+                              spells=spells(xs_all))))
+    js.append(("SpellLL", dict(cls="Plain", real="Gaussian", dim=3, dirs=[False], latlon=True,
+                               sills=[("none", 0), ("val", 128)], anis=["fit"], bnds=[()], sel_idx=sel_sp,
+                               spells=spells(["f64", "list", "f32"]))))
     if thorough:
+        js.append(("Spell3T", dict(cls="Plain", real="Gaussian", dim=3, dirs=[True], latlon=False, temporal=True,
+                                   sills=[("none", 0), ("val", 128)], anis=["fit", "off"], bnds=[()], sel_idx=sel_sp,
+                                   spells=[(x, y, w) for x in xs_all for y in ys_all for w in ["none", "arr"]])))
         js.append(("PlainT4", dict(cls="Plain", real="Gaussian", dim=4, dirs=[True], latlon=False, temporal=True,
                                    sills=[("none", 0), ("val", 128)], anis=["fit", "off", "fix"], bnds=[()])))
         js.append(("Opt3", dict(cls="Opt", real="Stable", dim=3, dirs=[True], latlon=False,
@@ -188,6 +210,10 @@ def mc_module(name, job, maxev=1, candev=None):
         "nug": ['S("fit", 0)', 'S("off", 0)', 'S("fix", %d)' % FIX_["nug"]],
         "opt": ['S("fit", 0)', 'S("off", 0)', 'S("fix", %d)' % FIX_["opt"]] if cls != "Plain" else ['S("off", 0)'],
     }
+    for a, idx in job.get("sel_idx", {}).items():
+        sel[a] = [sel[a][i] for i in idx if i < len(sel[a])]
+    spells = [_rec({"x": '"%s"' % x, "y": '"%s"' % y, "w": '"%s"' % w})
+              for x, y, w in job.get("spells", [("f64", "f64", "-")])]
     anis = []
     for k in job["anis"]:
         anis.append(_rec({"k": '"%s"' % k, "v": _seq(FIX_ANIS[dim]) if k == "fix" else "<<>>"}))
@@ -195,28 +221,31 @@ def mc_module(name, job, maxev=1, candev=None):
                 "anis": _seq([U, U] if job["latlon"] else PRE_ANIS[dim])})
     base = ('[cls |-> "%s", dim |-> %d, dir |-> d, latlon |-> %s, temporal |-> %s, pre |-> %s, bnd |-> b, '
             'sel |-> [var |-> sv, len |-> sl, nug |-> sn, opt |-> so], sill |-> si, anis |-> an, '
-            'unknown |-> un, methodok |-> mo]' % (cls, dim, "TRUE" if job["latlon"] else "FALSE",
+            'spell |-> sp, unknown |-> un, methodok |-> mo]' % (cls, dim, "TRUE" if job["latlon"] else "FALSE",
                                                    "TRUE" if job.get("temporal") else "FALSE", pre))
     main = ("{%s : d \\in %s, sv \\in %s, sl \\in %s, sn \\in %s, so \\in %s, si \\in %s, an \\in %s, b \\in %s, "
-            "un \\in {FALSE}, mo \\in {TRUE}}" % (
+            "sp \\in %s, un \\in {FALSE}, mo \\in {TRUE}}" % (
                 base, _set("TRUE" if x else "FALSE" for x in job["dirs"]), _set(sel["var"]), _set(sel["len"]),
                 _set(sel["nug"]), _set(sel["opt"]), _set('S("%s", %d)' % s for s in job["sills"]), _set(anis),
-                _set(bsets)))
+                _set(bsets), _set(spells)))
     sets = [main]
     if job.get("errors"):
         sets.append("{%s : d \\in {FALSE}, sv \\in %s, sl \\in {S(\"fit\", 0)}, sn \\in %s, so \\in %s, "
                     "si \\in {S(\"none\", 0), S(\"val\", 128)}, an \\in %s, b \\in {%s}, "
-                    "un \\in BOOLEAN, mo \\in BOOLEAN}" % (
+                    "sp \\in {[x |-> \"f64\", y |-> \"f64\", w |-> \"-\"]}, un \\in BOOLEAN, mo \\in BOOLEAN}" % (
                         base, _set(sel["var"][:3]), _set(sel["nug"][:2]), _set(sel["opt"][:1]), _set(anis[:1]),
                         bsets[0]))
     ce = candev or lat.get("candev", CANDEV)
     txt = "---- MODULE %s ----\nEXTENDS Fit\n%s" % (name, INT_OPS)
     txt += "McAll == " + " \\cup\n  ".join(sets) + "\n"
-    txt += "McCfgs == {c \\in McAll : PreLegal(c)}\n"
+    # weights given as a list together with directional data raise AttributeError on the current tree
+    # ('list' object has no attribute 'size' in _set_weights): outside C10, excluded from the input class
+    txt += "McCfgs == {c \\in McAll : PreLegal(c) /\\ ~(c.dir /\\ c.spell.w = \"list\")}\n"
     txt += "McCand == " + _rec({k: _set(str(x) for x in v) for k, v in lat.get("cand", CAND).items()}) + "\n"
     txt += "McCandEv == " + _rec({k: _set(str(x) for x in v) for k, v in ce.items()}) + "\n====\n"
     cfg = INT_CFG + " MaxEv = %d\n InfTail = TRUE\nINIT Init\nNEXT Next\n" % maxev
     cfg += "INVARIANT IdealSound\nINVARIANT IdealPreLegal\nINVARIANT LastEvalDecides\nINVARIANT ImplConforms\n"
+    cfg += "INVARIANT SpellingIrrelevant\n"
     return txt, cfg
 
 
@@ -438,7 +467,8 @@ def data_for(c, real, which=0):
     """exact variogram values of a model of the same family (x, y, truth)"""
     import gstools as gs
 
-    key = (real, c["cls"], c["dim"], c["latlon"], c.get("temporal", False), c["dir"], which)
+    spelled = is_spelled(c)
+    key = (real, c["cls"], c["dim"], c["latlon"], c.get("temporal", False), c["dir"], which, spelled)
     if key in _DATA:
         return _DATA[key]
     t = TRUTHS[which]
@@ -460,14 +490,67 @@ def data_for(c, real, which=0):
                 y = np.concatenate([y, y, y])
         elif c["dir"]:
             tm = getattr(gs, real)(anis=t["anis"][c["dim"]], **dimkw, **kw)
-            x = np.arange(1, 9) * 0.5
+            x = np.arange(1, 9) * (1.0 if spelled else 0.5)
             y = np.concatenate([tm.vario_axis(x, axis=i) for i in range(c["dim"])])
         else:
             tm = getattr(gs, real)(**dimkw, **kw)
-            x = np.arange(1, 13) * 0.5
+            x = np.arange(1, 13) * (1.0 if spelled else 0.5)
             y = tm.variogram(x)
+    if spelled:
+        # numbers that every spelling represents exactly: integer (lat-lon: dyadic) bin centers,
+        # variogram values rounded to float32
+        y = y.astype(np.float32).astype(np.float64)
     _DATA[key] = (x, y, t)
     return _DATA[key]
+
+
+BASE_SPELL = {"x": "f64", "y": "f64", "w": "-"}
+
+
+def is_spelled(c):
+    return c.get("spell", BASE_SPELL)["w"] != "-"
+
+
+def spell_args(c, x, y, spell=None):
+    """the same numbers in the spelling of the configuration: (x, y, weights or None)"""
+    sp = spell or c["spell"]
+    intx = bool(np.all(x == np.round(x)))
+    xs = {"f64": x, "i64": x.astype(np.int64) if intx else x,
+          "list": [int(v) if intx else float(v) for v in x], "f32": x.astype(np.float32)}[sp["x"]]
+    ys = {"f64": y, "list": [float(v) for v in y], "f32": y.astype(np.float32)}[sp["y"]]
+    wb = 1.0 / (1.0 + np.arange(len(x)))
+    ws = {"-": None, "none": None, "arr": wb, "list": [float(v) for v in wb]}[sp["w"]]
+    return xs, ys, ws
+
+
+def spell_level(c):
+    """'exact': the implementation sees bit-identical float64 numbers, the result must be identical;
+    'near': float32 numbers enter float32 arithmetic before the fit (mean of x times rescale and mean of y for
+    the start vector, mean of y for SS_tot, great-circle -> chordal conversion of lat-lon bin centers):
+    r2 agrees to 1e-3 and with its definition to 1e-6"""
+    sp = c["spell"]
+    return "near" if "f32" in (sp["x"], sp["y"]) else "exact"
+
+
+def r2_definition(m, c, x, y):
+    """1 - SS_res / SS_tot of model m on the float64 numbers (x, y), from the model's public variogram
+    functions and plain Python sums (no array assembly of the code under test)"""
+    import math
+
+    x = np.asarray(x, dtype=np.float64)
+    y = [float(v) for v in np.asarray(y, dtype=np.float64)]
+    if c["latlon"]:
+        v = [float(a) for a in m.vario_yadrenko(x)]
+    elif c["dir"]:
+        v = [float(a) for i in range(m.dim) for a in m.vario_axis(x, axis=i)]
+    else:
+        v = [float(a) for a in m.variogram(x)]
+    if len(v) != len(y):
+        return None
+    mean = math.fsum(y) / len(y)
+    ss_res = math.fsum((a - b) ** 2 for a, b in zip(y, v))
+    ss_tot = math.fsum((a - mean) ** 2 for a in y)
+    return 1.0 - ss_res / ss_tot
 
 
 # ---------------------------------------------------------------------------
@@ -481,10 +564,18 @@ class _Skip(Exception):
 class Call:
     """One execution of model.fit_variogram with gstools.covmodel.fit.curve_fit replaced."""
 
-    def __init__(self, c, real, kwargs, data_which=0):
-        self.c, self.real, self.kwargs = c, real, dict(kwargs)
+    def __init__(self, c, real, kwargs, data_which=0, spell=None):
+        self.c, self.real = c, real
+        self.kwargs = {k: (copy.deepcopy(v) if isinstance(v, dict) else v) for k, v in kwargs.items()}
         self.m = build_model(c, real)
-        self.x, self.y, self.truth = data_for(c, real, data_which)
+        self.x64, self.y64, self.truth = data_for(c, real, data_which)
+        self.x, self.y = self.x64, self.y64
+        if is_spelled(c):
+            self.x, self.y, w = spell_args(c, self.x64, self.y64, spell)
+            self.kwargs.pop("weights", None)
+            if w is not None:
+                self.kwargs["weights"] = w
+        self.pcov = None
         self.called = False
         self.lo = self.hi = self.p0 = None
         self.ready = None
@@ -534,6 +625,7 @@ class Call:
                 warnings.simplefilter("ignore")
                 out = self.m.fit_variogram(self.x, self.y, **self.kwargs)
             self.ret = project_ret(out[0], self.c)
+            self.pcov = np.array(out[1], dtype=float)
             if len(out) > 2:
                 self.r2 = float(out[2])
             self.final = project(self.m, self.c)
@@ -898,6 +990,37 @@ def numeric_options(i, c, x):
     return opts, dict(init=im, weights=wm, method=opts["method"], loss=opts["loss"], truth=which), which
 
 
+def _spell_str(a):
+    if isinstance(a, list):
+        return "list of %s" % type(a[0]).__name__
+    return "ndarray %s" % a.dtype
+
+
+def spelling_diff(c, call, base):
+    """None when the spelled run equals the float64 run (bit-identical parameters, pcov and r2 for 'exact'
+    spellings; r2 to 1e-3 for 'near' ones), else the first differing part of the result"""
+    level = spell_level(c)
+    if call.st != base.st:
+        # with float32 arithmetic before the fit the optimiser may take another path into an undocumented edge
+        return "status" if level == "exact" or "ok" not in (call.st, base.st) or call.exc_from == "pre" else None
+    if call.st != "ok":
+        return None
+    if level == "exact":
+        for a in ("var", "len", "nug", "opt", "anis"):
+            if call.ret[a] != base.ret[a] or call.final[a] != base.final[a]:
+                return "parameters"
+        if not np.array_equal(call.pcov, base.pcov, equal_nan=True):
+            return "pcov"
+        if call.r2 != base.r2 and not (call.r2 != call.r2 and base.r2 != base.r2):
+            return "r2"
+        return None
+    # the start vector / the chordal distances differ at float32 level, so on flat (ill-posed) cost surfaces the
+    # optimiser may stop at different parameters: only the goodness of fit is compared, coarsely
+    if not abs(call.r2 - base.r2) <= 1e-3:
+        return "r2"
+    return None
+
+
 def _inb(b, v):
     lo, hi = q2f(b["lo"]), q2f(b["hi"])
     return (lo <= v if b["lc"] else lo < v) and (v <= hi if b["hc"] else v < hi)
@@ -1030,6 +1153,7 @@ def cfg_fx(c):
                     for a, b in c["bnd"].items()},
             "sel": {a: {"k": s["k"], "v": _fxq(s["v"])} for a, s in c["sel"].items()},
             "sill": {"k": c["sill"]["k"], "v": _fxq(c["sill"]["v"])},
+            "spell": dict(c.get("spell", BASE_SPELL)),
             "anis": {"k": c["anis"]["k"], "v": [_fxq(a) for a in c["anis"]["v"]]},
             "unknown": c["unknown"], "methodok": c["methodok"]}
 
@@ -1114,6 +1238,8 @@ def _scipy_chunk(task, progress=None):
         kwargs = dict(opts)
         kwargs.update(build_kwargs(c, i % 6))
         kwargs["return_r2"] = True
+        if is_spelled(c):
+            kwargs.pop("weights", None)     # the weights come with the spelling
         kwstr, kwjson = _kw_str(kwargs), _kw_json({k: v for k, v in build_kwargs(c, i % 6).items()})
         call = Call(c, job["real"], kwargs, which).run(scipy_optimiser)
         out["n"] += 1
@@ -1130,6 +1256,34 @@ def _scipy_chunk(task, progress=None):
                           "real outcome %s" % (job["real"], _cfg_str(c), kwstr, job["real"],
                                                _describe(obs), _short_call(call)), rp)
             out["viol_keys"][key] = out["viol_keys"].get(key, 0) + 1
+        if is_spelled(c):
+            desc = dict(desc, weights=c["spell"]["w"], spelling="x=%(x)s y=%(y)s w=%(w)s" % c["spell"])
+        fam = "TPL" if is_tpl(c) else "std"
+        if call.st == "ok" and call.r2 is not None:
+            # the reported r2 is, by definition, 1 - SS_res / SS_tot of the returned model on the data handed in
+            rd = r2_definition(call.m, c, call.x64, call.y64)
+            tol = 1e-6 if (is_spelled(c) and spell_level(c) == "near") else 1e-9
+            if rd is not None and np.isfinite(rd) and not abs(call.r2 - rd) <= tol * max(1.0, abs(rd)):
+                key = "r2:definition:%s" % fam
+                col.violation(key, "%s %s, fit_variogram(%s; x %s, y %s): returned r2 = %r but 1 - SS_res/SS_tot of "
+                              "the returned model on the data handed in = %r" % (
+                                  job["real"], _cfg_str(c), kwstr, _spell_str(call.x), _spell_str(call.y),
+                                  call.r2, rd), rp)
+                out["viol_keys"][key] = out["viol_keys"].get(key, 0) + 1
+        if is_spelled(c) and (c["spell"]["x"], c["spell"]["y"]) != ("f64", "f64") or (
+                is_spelled(c) and c["spell"]["w"] == "list"):
+            # the same numbers in the float64 / ndarray spelling must give the same result
+            base_sp = {"x": "f64", "y": "f64", "w": "arr" if c["spell"]["w"] in ("arr", "list") else "none"}
+            base = Call(c, job["real"], kwargs, which, spell=base_sp).run(scipy_optimiser)
+            out["nfev"] += len(base.evals)
+            what = spelling_diff(c, call, base)
+            if what:
+                key = "spelling:%s:%s" % (what, fam)
+                col.violation(key, "%s %s, fit_variogram(%s): the result for x %s, y %s, weights %s differs from the "
+                              "result for the float64 spelling of the same numbers in %s: %s / r2 %r  vs  %s / r2 %r"
+                              % (job["real"], _cfg_str(c), kwstr, _spell_str(call.x), _spell_str(call.y),
+                                 c["spell"]["w"], what, _short_call(call), call.r2, _short_call(base), base.r2), rp)
+                out["viol_keys"][key] = out["viol_keys"].get(key, 0) + 1
         if call.called and call.st == "ok":
             out["nontrivial"].add(hash((jname, tlaval.freeze(c), tuple(sorted(desc.items())))))
             t = call.truth
@@ -1529,7 +1683,16 @@ def _replay(path):
         opts, desc, which = numeric_options(rp["index"], c, x)
         kwargs = dict(opts, **kwargs)
         kwargs["return_r2"] = True
+        if is_spelled(c):
+            kwargs.pop("weights", None)
         call = Call(c, rp["real"], kwargs, which).run(scipy_optimiser)
+        if call.st == "ok":
+            print("  x %s, y %s; returned r2 %r, 1 - SS_res/SS_tot of the returned model %r" % (
+                _spell_str(call.x), _spell_str(call.y), call.r2, r2_definition(call.m, c, call.x64, call.y64)))
+        if is_spelled(c):
+            base_sp = {"x": "f64", "y": "f64", "w": "arr" if c["spell"]["w"] in ("arr", "list") else "none"}
+            base = Call(c, rp["real"], kwargs, which, spell=base_sp).run(scipy_optimiser)
+            print("  float64 spelling:", _short_call(base), "r2", base.r2, "-> differs in", spelling_diff(c, call, base))
         print("  options", desc, "curve evaluations", len(call.evals), "optimum", call.popt)
     print("  real outcome:", _short_call(call))
     if call.st == "ok":
